@@ -29,6 +29,7 @@ type Env struct {
 	faultOpen  bool // OpenFile may fail (symbolic choice)
 	faultWrite bool
 	writes     int
+	writeFaults int
 	readings   []Value
 	window     int // > 0: every reading is at most this many seconds after the first one
 	stallIv    int // > 0: stall rule of DESIGN.md §C13 with this interval (seconds)
@@ -579,6 +580,7 @@ func (e *Engine) addEnvIntrinsics() {
 			k := c.s.choose(c.w, 2)
 			c.s.choices = append(c.s.choices, ChoiceRec{"writefault", k})
 			if k == 1 {
+				env.writeFaults++
 				return Tuple{uint64(0), c.s.newError("write " + fd.path + ": input/output error")}
 			}
 		}
@@ -745,6 +747,7 @@ func (e *Engine) addEnvIntrinsics() {
 		}
 		in[p+"vFSOpenAttempts"] = func(c *callCtx) Value { return uint64(len(c.s.env.openLog)) }
 		in[p+"vFSWriteCount"] = func(c *callCtx) Value { return uint64(c.s.env.writes) }
+		in[p+"vFSWriteFaults"] = func(c *callCtx) Value { return uint64(c.s.env.writeFaults) }
 		in[p+"vClockMode"] = func(c *callCtx) Value {
 			m := c.int(0)
 			c.s.env.clockSym = m != 0
@@ -909,6 +912,23 @@ type fmtRec struct {
 
 // ---------------------------------------------------------------------------
 // encoding/json on a small set of concrete shapes
+
+// jsonMarshalerMethod returns the interpreted MarshalJSON method of a dynamic type, if any.
+func (e *Engine) jsonMarshalerMethod(rt *RType) *ssa.Function {
+	ms := e.prog.MethodSets.MethodSet(rt.T)
+	for i := 0; i < ms.Len(); i++ {
+		sel := ms.At(i)
+		if sel.Obj().Name() == "MarshalJSON" {
+			if sig, ok := sel.Type().(*types.Signature); ok && sig.Params().Len() == 0 && sig.Results().Len() == 2 {
+				e.methMu.Lock()
+				fn := e.prog.MethodValue(sel)
+				e.methMu.Unlock()
+				return fn
+			}
+		}
+	}
+	return nil
+}
 
 func (s *State) jsonMarshal(w *Worker, iv Iface) Value {
 	nat, err := s.toNativeAny(w, iv)
